@@ -280,6 +280,7 @@ func TestVerifC14Lists(t *testing.T) {
 	c14lOverlap(t, out, rnd)
 	c14lSetURL(t, out, rnd)
 	c14lStatus(t, out, rnd)
+	c14lIDs(t, out, rnd)
 }
 
 // ---------------------------------------------------------------- (I)
@@ -822,16 +823,24 @@ func c14lSetURL(t *testing.T, out *vfOut, rnd *vfRand) {
 		name                   string
 		wasEnabled             bool
 		urlChanges, taken, enb bool
+		// restart (round 7, M): the filtering module is started anew (the real
+		// New over the same data directory and the entries as the configuration
+		// file would carry them) between the preparation and the judged call
+		restart bool
 	}
 	requests := []request{
-		{"url-change", true, true, false, true},
-		{"re-enable", false, false, false, true},
-		{"re-enable-new-url", false, true, false, true},
-		{"rename-only", true, false, false, true},
-		{"disable", true, false, false, false},
-		{"disable-new-url", true, true, false, false},
-		{"url-taken", true, true, true, true},
-		{"stay-disabled-new-url", false, true, false, false},
+		{"url-change", true, true, false, true, false},
+		{"re-enable", false, false, false, true, false},
+		{"re-enable-new-url", false, true, false, true, false},
+		{"rename-only", true, false, false, true, false},
+		{"disable", true, false, false, false, false},
+		{"disable-new-url", true, true, false, false, false},
+		{"url-taken", true, true, true, true, false},
+		{"stay-disabled-new-url", false, true, false, false, false},
+		{"re-enable-after-restart", false, false, false, true, true},
+		{"re-enable-new-url-after-restart", false, true, false, true, true},
+		{"url-change-after-restart", true, true, false, true, true},
+		{"rename-only-after-restart", true, false, false, true, true},
 	}
 	k := 0
 	for _, rq := range requests {
@@ -876,6 +885,25 @@ func c14lSetURL(t *testing.T, out *vfOut, rnd *vfRand) {
 				if _, err := d.filterSetProperties(firstURL, FilterYAML{Enabled: false, Name: "first", URL: firstURL}, allow); err != nil {
 					t.Fatalf("%s: disabling the list: %v", name, err)
 				}
+			}
+			if rq.restart {
+				// what the configuration file carries of an entry: no checksum, no rule count
+				plain := func(in []FilterYAML) (out []FilterYAML) {
+					for _, f := range in {
+						out = append(out, FilterYAML{Enabled: f.Enabled, URL: f.URL, Name: f.Name, Filter: Filter{ID: f.ID}, white: f.white})
+					}
+					return out
+				}
+				d.conf.filtersMu.RLock()
+				fl, wl := plain(d.conf.Filters), plain(d.conf.WhitelistFilters)
+				d.conf.filtersMu.RUnlock()
+				d.Close()
+				d, err = New(&Config{DataDir: dataDir, FilteringEnabled: true, FiltersUpdateIntervalHours: 24,
+					HTTPClient: &http.Client{Transport: rt}, ConfigModified: func() {}, Filters: fl, WhitelistFilters: wl}, nil)
+				if err != nil {
+					t.Fatal(err)
+				}
+				d.filtersInitializerChan = make(chan filtersInitializerParams, 1)
 			}
 			// the source of the judged call
 			newURL := firstURL
@@ -972,10 +1000,18 @@ func c14lSetURL(t *testing.T, out *vfOut, rnd *vfRand) {
 			if allow {
 				cls = append(cls, "set-url-allowlist")
 			}
-			c := vfCase{
-				Coq: vfApp("CSetUrl", c14lOptData(true, old), vfBool(rq.wasEnabled), vfBool(rq.wasEnabled),
+			coq := vfApp("CSetUrl", c14lOptData(true, old), vfBool(rq.wasEnabled), vfBool(rq.wasEnabled),
+				vfBool(rq.urlChanges), vfBool(rq.taken), vfBool(rq.enb), vfN(uint64(status)), c14lChunkList(s.chunks), vfBool(s.cut),
+				vfN(uint64(fault)), vfBool(serr != nil), vfBool(restart), c14lOptData(presentAfter, got))
+			if rq.restart {
+				// the checksum in memory is the model's business (what a start leaves)
+				cls = append(cls, "set-url-after-restart")
+				coq = vfApp("CSetUrlR", c14lOptData(true, old), vfBool(rq.wasEnabled),
 					vfBool(rq.urlChanges), vfBool(rq.taken), vfBool(rq.enb), vfN(uint64(status)), c14lChunkList(s.chunks), vfBool(s.cut),
-					vfN(uint64(fault)), vfBool(serr != nil), vfBool(restart), c14lOptData(presentAfter, got)),
+					vfN(uint64(fault)), vfBool(serr != nil), vfBool(restart), c14lOptData(presentAfter, got))
+			}
+			c := vfCase{
+				Coq:        coq,
 				Nontrivial: true,
 				Classes:    cls,
 				MonitorOK:  len(fails) == 0,
